@@ -257,7 +257,34 @@ def T_ite(c, a, b):
         return b
     if a == b:
         return a
+    # canonical polarity: conditions are positive (`not`, `!=`, `<=` select the swapped branches),
+    # so `if c: A else: B` and `if not c: B else: A` are the same term
+    if c[0] == "app" and c[1] == "not":
+        return T_ite(c[2][0], b, a)
+    if c[0] == "app" and c[1] == "cmpNotEq":
+        return ("ite", ("app", "cmpEq", c[2]), b, a)
+    if c[0] == "app" and c[1] == "cmpLtE":
+        return ("ite", ("app", "cmpLt", (c[2][1], c[2][0])), b, a)
     return ("ite", c, a, b)
+
+
+def lift_ite(t, cond, budget: int = 64):
+    """Pull the conditional on `cond` to the top: f(.., ite(cond, a, b), ..) -> ite(cond, f(.., a, ..), f(.., b, ..)), so
+    that `x = ite(c, a, b); return f(x)` and `if c: return f(a) ... return f(b)` are the same term.  Binders are not crossed."""
+    if not isinstance(t, tuple) or not t or budget <= 0:
+        return t
+    k = t[0]
+    if k == "ite" and t[1] == cond:
+        return T_ite(cond, lift_ite(t[2], cond, budget - 1), lift_ite(t[3], cond, budget - 1))
+    if k == "app":
+        args = tuple(lift_ite(a, cond, budget - 1) for a in t[2])
+        for i, a in enumerate(args):
+            if isinstance(a, tuple) and a and a[0] == "ite" and a[1] == cond:
+                yes = ("app", t[1], args[:i] + (a[2],) + args[i + 1:])
+                no = ("app", t[1], args[:i] + (a[3],) + args[i + 1:])
+                return T_ite(cond, lift_ite(yes, cond, budget - 1), lift_ite(no, cond, budget - 1))
+        return ("app", t[1], args)
+    return t
 
 
 def T_cmp(op, a, b):
